@@ -304,6 +304,33 @@ func runC03(r *ev.Run) {
 		}
 		nOps := 10 + rng.IntN(60)
 		lastText := map[uint32]string{}
+		// every twelfth case starts from several hundred documents (posting lists, length statistics and heaps well
+		// beyond the handful of documents of the ordinary histories), some of them removed and flushed again
+		if ci%12 == 5 {
+			nb := 300 + rng.IntN(500)
+			for i := 0; i < nb; i++ {
+				id, text := ids.next(), tg.doc()
+				if err := idx.Add(id, text); err != nil {
+					rep("bm25.add-error", err.Error())
+				}
+				m.add(id, text)
+				lastText[id] = text
+			}
+			live := m.liveIDs()
+			for i := 0; i < nb/10; i++ {
+				id := live[rng.IntN(len(live))]
+				idx.Remove(id)
+				m.remove(id)
+			}
+			if rng.IntN(2) == 0 {
+				idx.Flush()
+				m.flush()
+			}
+			hist = append(hist, textOp{fmt.Sprintf("bulk: %d documents, %d removals", nb, nb/10), 0, ""})
+			r.Count("cases:bulk-start", 1)
+			nOps = 6 + rng.IntN(8)
+			probe()
+		}
 		for op := 0; op < nOps; op++ {
 			c := rng.IntN(10)
 			switch {
